@@ -16,8 +16,18 @@ impl<'a> World<'a> {
         match self.cfg.c18 {
             C18Mode::Answer => {
                 self.end_ms = 20 * k + 50;
+                // the connection fails once on the way (possibly with a ping
+                // outstanding); the next one is answered like the first
+                if k > 0 && self.ch.coin(1, 3) {
+                    self.c18_break_at_ms = Some(self.ch.pick((8 * k) as u32 + 1) as u64);
+                    self.c18_break_on_ping = self.ch.coin(1, 2);
+                }
             }
             C18Mode::Silent | C18Mode::SilentHalfOpen | C18Mode::SilentStalled => {
+                // second life: after the failure was reported the broker is
+                // back and answers; the next connection must be judged like a
+                // first one (no state of the dead connection may leak into it)
+                self.c18_second_life = self.ch.coin(1, 2);
                 let t = match self.ch.pick(4) {
                     0 => 0,
                     1 => k + self.ch.pick(3) as u64 - 1,
@@ -70,6 +80,12 @@ impl<'a> World<'a> {
         if !self.conns[idx].connack_sent {
             return;
         }
+        if let Some(t) = self.c18_break_at_ms {
+            if now >= t && !self.c18_break_on_ping && self.established {
+                self.c18_break(idx, now);
+                return;
+            }
+        }
         // light traffic in either direction
         let n = self.ch.pick(3);
         for _ in 0..n {
@@ -101,6 +117,24 @@ impl<'a> World<'a> {
         }
     }
 
+    /// The injected connection failure of Answer mode.
+    pub fn c18_break(&mut self, idx: usize, now: u64) {
+        tr!(self.rep, "{now} injected failure of connection #{idx}");
+        self.rep.fault("c18_connection_failure");
+        self.c18_break_at_ms = None;
+        self.c18_break_pending = false;
+        self.c18_broke = true;
+        if self.ch.coin(1, 2) {
+            self.net.lock().unwrap().close_by_script(idx);
+        } else {
+            self.net.lock().unwrap().break_conn(idx);
+        }
+        // the reconnect and its handshake take no simulated time worth
+        // mentioning; give the second connection its share of intervals
+        let k = self.k_ms();
+        self.end_ms = self.end_ms.max(now + 8 * k + 50);
+    }
+
     pub fn c18_on_ping(&mut self, idx: usize, now: u64) {
         if !self.is(super::cfg::P::C18) {
             return;
@@ -113,6 +147,11 @@ impl<'a> World<'a> {
                 format!("PINGREQ on the wire at {now} ms although keep-alive is zero"),
             );
             return;
+        }
+        if let Some(t) = self.c18_break_at_ms {
+            if now >= t && self.c18_break_on_ping {
+                self.c18_break_pending = true;
+            }
         }
         let last = self.conns[idx].last_ping_ms.unwrap_or(self.conns[idx].connack_ms);
         self.conns[idx].last_ping_ms = Some(now);
@@ -199,6 +238,11 @@ impl<'a> World<'a> {
     pub fn c18_on_err(&mut self, e: &PErr) {
         let now = self.now_ms();
         match self.cfg.c18 {
+            C18Mode::Answer if self.c18_broke && !self.c18_break_reported && e.kind != ErrKind::AwaitPingResp => {
+                // the failure the simulator injected: the client reconnects
+                self.c18_break_reported = true;
+                self.rep.probe("c18_injected_failure_reported");
+            }
             C18Mode::Answer => {
                 if e.kind == ErrKind::AwaitPingResp {
                     self.violate(
@@ -218,6 +262,18 @@ impl<'a> World<'a> {
                     self.rep.probe("silent_broker_detected");
                     if e.kind == ErrKind::AwaitPingResp {
                         self.rep.probe("detected_by_keepalive_error");
+                    }
+                    if self.c18_second_life {
+                        let k = self.k_ms();
+                        tr!(self.rep, "{now} second life: the broker answers again");
+                        self.rep.probe("c18_second_life");
+                        self.cfg.c18 = C18Mode::Answer;
+                        self.silent = false;
+                        self.silent_t = None;
+                        self.silent_at_ms = None;
+                        self.writes_refused = false;
+                        self.end_ms = now + 6 * k + 50;
+                        return;
                     }
                 } else {
                     self.rep.probe("c18_unexpected_error");
@@ -254,7 +310,7 @@ impl<'a> World<'a> {
     pub fn c18_finish(&mut self) {
         let pings: u32 = self.conns.iter().map(|c| c.pings).sum();
         self.rep.nontrivial = match self.cfg.c18 {
-            C18Mode::Answer => pings >= 19,
+            C18Mode::Answer => pings >= 19 || (self.detected && pings >= 4),
             C18Mode::Silent | C18Mode::SilentHalfOpen | C18Mode::SilentStalled => self.detected,
             C18Mode::Zero => self.now_ms() >= 600_000,
             _ => self.detected,
